@@ -19,7 +19,8 @@ RULE = ('random data over all label alphabets and container forms with maps draw
         'non-injective target or the container is ragged/2-d, or the call is a rename/unique '
         'with >= 3 labels.'
         " Added classes: int8/uint8/int16/int32 arrays with label spreads beyond the type's maximum and beyond 2^18, zero-length trajectories at the front/middle/end of a list of arrays, Fortran/transposed/strided layouts."
-        ' Later: complete maps of a gap-free alphabet listed in arbitrary order, 2^20 + k frames with a label only in the last frame.')
+        ' Later: complete maps of a gap-free alphabet listed in arbitrary order, 2^20 + k frames with a label only in the last frame.'
+        ' Fifth/sixth batch: rows of different types in one list (narrow array first).')
 TRUSTED = ['NumPy fancy indexing / astype / split are modelled (Model/Labels.v), not verified']
 ASSUMPTIONS = ['labels within +-2^30 (int32 cast exact); old values distinct']
 BATCH = 4000
